@@ -116,6 +116,10 @@ func norm0(v any, outside *bool) (s *spec.Spec, ident any, ok bool) {
 	case []at.Object:
 		out := spec.ListV()
 		for _, e := range x {
+			if e == nil {
+				out.L = append(out.L, spec.NilV())
+				continue
+			}
 			w, err := drive.Walk(e)
 			if err != nil {
 				return nil, nil, false
@@ -126,6 +130,10 @@ func norm0(v any, outside *bool) (s *spec.Spec, ident any, ok bool) {
 	case []at.List:
 		out := spec.ListV()
 		for _, e := range x {
+			if e == nil {
+				out.L = append(out.L, spec.NilV())
+				continue
+			}
 			w, err := drive.Walk(e)
 			if err != nil {
 				return nil, nil, false
@@ -136,6 +144,10 @@ func norm0(v any, outside *bool) (s *spec.Spec, ident any, ok bool) {
 	case map[string]at.Object:
 		out := spec.ObjV()
 		for k, e := range x {
+			if e == nil {
+				out.Set(k, spec.NilV())
+				continue
+			}
 			w, err := drive.Walk(e)
 			if err != nil {
 				return nil, nil, false
@@ -146,6 +158,10 @@ func norm0(v any, outside *bool) (s *spec.Spec, ident any, ok bool) {
 	case map[string]at.List:
 		out := spec.ObjV()
 		for k, e := range x {
+			if e == nil {
+				out.Set(k, spec.NilV())
+				continue
+			}
 			w, err := drive.Walk(e)
 			if err != nil {
 				return nil, nil, false
@@ -450,6 +466,18 @@ func c12Store(c *fw.Ctx, ep entryPoint, v any) {
 				return
 			}
 		}
+		// a converted container is a fresh one of the caller's: modifying it must not influence any later conversion
+		if ident == nil && kind2container(kind) {
+			drive.Protect(func() {
+				switch x := got.(type) {
+				case at.List:
+					x.Add("poison")
+				case at.Object:
+					x.Set("poison", true)
+				}
+			})
+			c.Count("converted_containers_modified_afterwards")
+		}
 	})
 }
 
@@ -518,6 +546,8 @@ func runC12(c *fw.Ctx) {
 		map[string]at.Object(nil), map[string]at.Object{}, map[string]at.List(nil), map[string]at.List{}, map[string]string(nil), map[string]string{"a": "b", "": ""}, map[string]bool{"t": true},
 		map[string]int(nil), map[string]int{"a": 1, "b": math.MinInt}, map[string]float64(nil), map[string]float64{"a": 0.5},
 		[]any{map[string]int{"a": 1}, []float64{1}, map[string]string{"k": "v"}, []bool{true}, map[string]bool{}, map[string]float64{}},
+		[]at.Object{nil}, []at.List{nil, nil}, []at.Object{at.NewObject("x", 1), nil}, map[string]at.Object{"n": nil}, map[string]at.List{"n": nil, "l": at.NewList(1)},
+		[]any{[]at.List{nil}, map[string]at.Object{"n": nil}}, []int{}, []string{}, []float64{}, []bool{}, []any{[]any{}, []int{}, map[string]any{}},
 		map[string]any{"i8": int8(-1), "u8": uint8(255), "i16": int16(-300), "u16": uint16(65535), "i32": int32(-70000), "u32": uint32(70000), "i64": int64(-1), "u64": uint64(1), "u": uint(2), "f32": float32(1.5)},
 	}
 	c.Cases("map-slice-flavours", len(flav), true, func(i int, r *rng.R) {
